@@ -93,6 +93,7 @@ CHECKS = {
     "Check_IsDeadAfter": (["proc", "stmts", "bufname", "ndim"],
                           lambda g, a: _dead_after(g, a) if g.ghost.get("dead_model") else None),
     "Check_IsIdempotent": (["proc", "stmts"], lambda g, a: None),
+    "Check_IsNonNegativeExpr": (["proc", "stmts", "expr"], lambda g, a: None),
     "Check_BufferReduceOnly": (["proc", "stmts", "buf", "ndim"], lambda g, a: None),
     "Check_DeleteConfigWrite": (["proc", "stmts"], lambda g, a: frozenset()),
     "Check_ExtendEqv": (["proc", "stmts0", "stmts1", "cfg_mod"], lambda g, a: frozenset()),
@@ -1646,9 +1647,19 @@ def _(a):
 cdl = scope_contract("DoDivideLoop", checks=("Check_ExprBound",))
 
 
+@proc
+def _cl_ext(n: size, x: f32[n + 1]):
+    assert n > 1100
+    for i in seq(0, n):
+        t: f32[i + 1]
+        t[0] = x[i]
+        for j in seq(0, 100):
+            x[i] += t[0]
+
+
 @cdl.inputs
 def _(g):
-    ir = _lits(g, _cl)
+    ir = _lits(g, g.choose([_cl, _cl_ext], "body (scalar temporary | temporary whose extent mentions the iterator)"))
     tail = g.choose(["guard", "cut", "cut_and_guard", "perfect"], "tail")
     return {"loop_cursor": cursor_to(ir, find_loop(ir, "i")), "quot": g.pos("quot"), "outer_iter": "io",
             "inner_iter": "ii", "tail": "guard" if tail == "perfect" else tail, "perfect": tail == "perfect",
@@ -1675,6 +1686,107 @@ def _(a):
 
 def _new_alloc_named(ir, nm):
     return [s for s in nodes_of(ir, LoopIR.Alloc) if s.name.name() == nm]
+
+
+# ---- an index variable that is substituted away is substituted in allocation extents too (F70)
+#
+# `t: f32[i + 1]` next to `t[0] = x[i]`: whatever the rewrite turns the index `i` into, the extent must become that
+# expression + 1 (rewrite-agnostic: the extent is compared with the index the same rewrite produced).
+
+def extents_follow_indices(ir):
+    ok = True
+    for al in _new_alloc_named(ir, "t"):
+        if not isinstance(al.type, T.Tensor):
+            continue
+        blk = _block_holding(ir, al)
+        k = [id(s) for s in blk].index(id(al))
+        asg = blk[k + 1]
+        if not (isinstance(asg, LoopIR.Assign) and isinstance(asg.rhs, LoopIR.Read) and len(asg.rhs.idx) == 1):
+            return False
+        ext = al.type.hi[0]
+        if not (isinstance(ext, LoopIR.BinOp) and ext.op == "+"):
+            return False
+        ok = And(ok, same(ext.lhs, asg.rhs.idx[0]))
+    return ok
+
+
+def _reads_syms(e):
+    return sorted(id(r.name) for r in nodes_of(e, LoopIR.Read))
+
+
+def _block_holding(ir, st):
+    for _, n in walk(ir):
+        for fld in ("body", "orelse"):
+            blk = getattr(n, fld, None)
+            if isinstance(blk, list) and any(x is st for x in blk):
+                return blk
+    raise AssertionError("statement not found")
+
+
+@cdl.ensures("an allocation extent that mentions the divided iterator is rewritten like the index expressions")
+def _(a):
+    ir, _ = a.result
+    return extents_follow_indices(ir)
+
+
+csh = scope_contract("DoShiftLoop", checks=("Check_IsNonNegativeExpr",))
+
+
+@csh.inputs
+def _(g):
+    ir = _lits(g, _cl_ext)
+    return {"loop_c": cursor_to(ir, find_loop(ir, "i")), "new_lo": LoopIR.Const(g.nat("new_lo"), T.int, SRC),
+            "__ghost__": {"ir": ir}}
+
+
+plain_call(csh, ["loop_c", "new_lo"])
+
+
+@csh.ensures("every use of a variable lies in the scope of exactly one declaration")
+def _(a):
+    ir, _ = a.result
+    return uses_in_scope(ir) and binders_unique(ir)
+
+
+@csh.ensures("an allocation extent that mentions the shifted iterator is rewritten like the index expressions")
+def _(a):
+    ir, _ = a.result
+    return extents_follow_indices(ir)
+
+
+cdr = scope_contract("DoDivideWithRecompute", checks=("Check_ExprBound", "Check_IsIdempotent"))
+
+
+@proc
+def _cl_rc(n: size, x: f32[8 * n + 4]):
+    assert n > 1100
+    for i in seq(0, 8 * n):
+        t: f32[i + 1]
+        t[0] = x[i]
+
+
+@cdr.inputs
+def _(g):
+    ir = _lits(g, _cl_rc)
+    n = find_arg(ir, "n").name
+    return {"loop_cursor": cursor_to(ir, find_loop(ir, "i")), "outer_hi": LoopIR.Read(n, [], T.size, SRC),
+            "outer_stride": 8, "iter_o": "io", "iter_i": "ii", "__ghost__": {"ir": ir}}
+
+
+plain_call(cdr, ["loop_cursor", "outer_hi", "outer_stride", "iter_o", "iter_i"])
+
+
+@cdr.ensures("every use of a variable lies in the scope of exactly one declaration (the old iteration variable is gone)")
+def _(a):
+    ir, _ = a.result
+    old_iter = find_loop(a.ghost.ir, "i").iter
+    return uses_in_scope(ir) and binders_unique(ir) and not [n for n in nodes_of(ir, LoopIR.Read) if n.name is old_iter]
+
+
+@cdr.ensures("an allocation extent that mentions the divided iterator is rewritten like the index expressions")
+def _(a):
+    ir, _ = a.result
+    return extents_follow_indices(ir)
 
 
 # ----------------------------------------------------------------------------
